@@ -65,6 +65,7 @@ import (
 	"encoding/binary"
 	"errors"
 	"fmt"
+	"io"
 	"net"
 	"net/http"
 	"net/http/httptest"
@@ -310,6 +311,8 @@ func jTopicNames(ns []uint64) []string {
 //	6 a *net.OpError around a Timeout() error
 //	7 8 9 (calls that belong to a subscriber) the subscriber's own context is cancelled inside the call, and the
 //	  error is ctx.Err() itself / fmt.Errorf("...: %w", ctx.Err()) / a jErr wrapping ctx.Err()
+//	10 11 12 13 wraps the library's own sse.ErrNoTopic / sse.ErrProviderClosed / sse.ErrUnexpectedEOF, and io.EOF
+//	  (values Joe himself gives a meaning to when HE produces them; coming from a writer or a replayer they are errors)
 type jErr struct {
 	idx   uint64
 	inner error
@@ -338,12 +341,20 @@ func (e jErr) Unwrap() error {
 		return context.DeadlineExceeded
 	case 5:
 		return context.Canceled
+	case 10:
+		return sse.ErrNoTopic
+	case 11:
+		return sse.ErrProviderClosed
+	case 12:
+		return sse.ErrUnexpectedEOF
+	case 13:
+		return io.EOF
 	}
 	return e.inner
 }
 
 // jOwnCtxKind: the character makes the call cancel the subscriber's own context before it answers.
-func jOwnCtxKind(v uint64) bool { return v >= 100 && jErrKind(v) >= 7 }
+func jOwnCtxKind(v uint64) bool { return v >= 100 && jErrKind(v) >= 7 && jErrKind(v) <= 9 }
 
 // jErrCodeOf is the code the error built for verdict v projects to (joeErrCode): the verdict itself - the value is
 // recognised by identity - except where the value returned IS a context error (characters 7, 8 with a subscriber).
@@ -358,7 +369,7 @@ func jErrCodeOf(v uint64, own bool) uint64 {
 // none, characters 7-9 are then plain); for the characters 7-9 the caller has cancelled it already.
 func jErrOf(v uint64, ctx context.Context) error {
 	switch k := jErrKind(v); {
-	case k == 0 || k >= 7 && ctx == nil:
+	case k == 0 || k >= 7 && k <= 9 && ctx == nil:
 		return codeErr{v}
 	case k == 6:
 		return &net.OpError{Op: "write", Net: "tcp", Err: jErr{idx: v}}
